@@ -288,3 +288,13 @@ def rint_int(a):
     fl_ = z3.ToInt(v)
     frac = v - z3.ToReal(fl_)
     return z3.If(frac * 2 < 1, fl_, z3.If(frac * 2 > 1, fl_ + 1, z3.If(fl_ % 2 == 0, fl_, fl_ + 1)))
+
+
+_SQ = z3.Function("square!", z3.RealSort(), z3.RealSort())
+
+
+def square_uf(a):
+    """a ** 2 with the square of the value uninterpreted (flags as for a * a: NaN stays NaN, +-inf gives +inf)"""
+    if a.fin:
+        return SFloat(FIN, _SQ(a.v), True)
+    return SFloat.flags(a.nan, _or(a.pinf, a.ninf), z3.BoolVal(False), _SQ(a.v))
